@@ -89,6 +89,18 @@ type c04Case struct {
 	Tok      c04Tok  `json:"token"`
 	Expected string  `json:"expected"`
 	Observed *c04Obs `json:"observed,omitempty"`
+	// relational clause of the value part: the earlier token (another claim value) that led to the same session value
+	Other *c04Tok `json:"same_session_value_as,omitempty"`
+}
+
+// String spells out the literal values behind the names of the value part (c04_values_test.go).
+func (t c04Tok) String() string {
+	type plain c04Tok
+	s := fmt.Sprintf("%+v", plain(t))
+	if lit := c04Literal(t); lit != "" {
+		s += " [" + lit + "]"
+	}
+	return s
 }
 
 func (cs *c04Case) key() string {
@@ -122,6 +134,9 @@ func c04AudValue(name string) (any, bool) {
 	case "superstring":
 		return world.ClientID + "2", true
 	}
+	if c04IsDerivedAud(name) {
+		return c04DerivedAud(name)
+	}
 	panic("c04: unknown audience shape " + name)
 }
 
@@ -148,6 +163,13 @@ func c04AudMatches(v any, allowed map[string]bool) bool {
 	case []string:
 		for _, s := range x {
 			if allowed[s] {
+				return true
+			}
+		}
+	case []any:
+		// (a list inside a list is not an audience value)
+		for _, e := range x {
+			if s, ok := e.(string); ok && allowed[s] {
 				return true
 			}
 		}
@@ -229,7 +251,10 @@ func c04Spec(k c04Cfg, path string, t c04Tok) *world.TokenSpec {
 	case "groups-empty":
 		s.Claims["groups"] = []string{} // the claim is there: the user is in no group (any more)
 	default:
-		panic("c04: typing " + t.Typ)
+		if !c04IsValueTyping(t.Typ) {
+			panic("c04: typing " + t.Typ)
+		}
+		c04ValueSpec(k, t.Typ, s.Claims)
 	}
 	if strings.HasPrefix(path, "bearer") {
 		s.DropNonce = true
@@ -358,6 +383,12 @@ func c04RefOne(k c04Cfg, path, form string, t c04Tok, v c04Verifier) c04One {
 		if strings.HasPrefix(path, "bearer") {
 			open("no e-mail claim and no access token for the profile endpoint")
 		}
+	default:
+		if c04IsValueTyping(t.Typ) {
+			if pos, val := c04ValueOf(t.Typ); !c04Plain(pos, val) {
+				open("claim value is not a string (groups: not a list of strings)")
+			}
+		}
 	}
 	if form != "" && form != "bearer" {
 		open("token carried in a Basic header")
@@ -381,6 +412,8 @@ type c04Adm struct {
 	GroupsFree bool // any rendering, as long as nothing foreign shows up
 	Prefs      []string
 	ZeroProf   bool // the token has every configured claim: the profile endpoint must not be consulted
+	// value part: the field must say what this claim value says (c04Renders)
+	UserVal, EmailVal, PrefVal, GroupsVal *c04Val
 }
 
 func c04Admissible(k c04Cfg, path string, t c04Tok) c04Adm {
@@ -416,7 +449,19 @@ func c04Admissible(k c04Cfg, path string, t c04Tok) c04Adm {
 		a.Groups = [][]string{c04TokGroups}
 	}
 	a.ZeroProf = !bearer && !k.Custom && t.EV != "absent" &&
-		(t.Typ == "normal" || t.Typ == "groups-string" || t.Typ == "groups-objects")
+		(t.Typ == "normal" || t.Typ == "groups-string" || t.Typ == "groups-objects" || c04IsValueTyping(t.Typ))
+	if c04IsValueTyping(t.Typ) {
+		switch pos, val := c04ValueOf(t.Typ); pos {
+		case "user":
+			a.UserVal = val
+		case "email":
+			a.EmailVal = val
+		case "pref":
+			a.PrefVal = val
+		case "groups":
+			a.GroupsVal = val
+		}
+	}
 	return a
 }
 
@@ -644,6 +689,9 @@ func (e *c04Env) profileCallsSince(n0 int) int {
 
 func (e *c04Env) bearerToken(k c04Cfg, path string, t c04Tok) string {
 	key := fmt.Sprintf("%s|%v|%s|%+v", k.AudCfg, k.ExtraIss, path, t)
+	if c04IsValueTyping(t.Typ) {
+		key += fmt.Sprintf("|%v", k.Custom) // the claim the value goes into depends on the configured claim names
+	}
 	if tok, ok := e.tokCache[key]; ok {
 		return tok
 	}
@@ -822,14 +870,38 @@ func c04In(s string, set []string) bool {
 
 // c04IdentField returns the first identity field that is not admissible ("" = fine).
 func c04IdentField(id *c04ID, a c04Adm) string {
-	if !c04In(id.User, a.Users) {
+	if a.UserVal != nil {
+		if !c04Renders(a.UserVal, id.User) {
+			return "user"
+		}
+	} else if !c04In(id.User, a.Users) {
 		return "user"
 	}
-	if !c04In(id.Email, a.Emails) {
+	if a.EmailVal != nil {
+		if !c04Renders(a.EmailVal, id.Email) {
+			return "email"
+		}
+	} else if !c04In(id.Email, a.Emails) {
 		return "email"
 	}
-	if !c04In(id.Pref, a.Prefs) {
+	if a.PrefVal != nil {
+		if !c04Renders(a.PrefVal, id.Pref) {
+			return "preferred_username"
+		}
+	} else if !c04In(id.Pref, a.Prefs) {
 		return "preferred_username"
+	}
+	if a.GroupsVal != nil {
+		if c04RendersGroups(a.GroupsVal, id.Groups) {
+			return ""
+		}
+		for _, g := range a.Groups {
+			// (custom claim names: the literal-name reading of realm.roles gives no groups)
+			if len(g) == 0 && len(id.Groups) == 0 {
+				return ""
+			}
+		}
+		return "groups"
 	}
 	if a.GroupsFree {
 		for _, g := range id.Groups {
@@ -937,6 +1009,25 @@ type c04Unit struct {
 	Typ    string
 	Signer string
 	Iss    string
+	// value part (c04_values_test.go): the unit's tokens are listed, not the product of the tier's alphabets
+	Part string
+	Toks []c04Tok
+}
+
+// c04UnitToks: the tokens of one unit.
+func c04UnitToks(u c04Unit, exps, evs []string) []c04Tok {
+	if u.Toks != nil {
+		return u.Toks
+	}
+	var out []c04Tok
+	for _, aud := range c04UnitAuds(u) {
+		for _, exp := range exps {
+			for _, ev := range c04EVsOf(evs, u, exp) {
+				out = append(out, c04Tok{Signer: u.Signer, Iss: u.Iss, Aud: aud, Exp: exp, EV: ev, Typ: u.Typ})
+			}
+		}
+	}
+	return out
 }
 
 // c04EVsOf: the quick tier leaves the string form of email_verified out of the product, except on
@@ -1034,6 +1125,11 @@ func c04Units(quick bool) (units []c04Unit, info map[string]any) {
 		"audience_shapes": len(c04Auds), "audience_shapes_bearer_extra_issuer": len(c04Auds) + 1,
 		"expiry": len(exps), "email_verified": len(evs), "claim_typings": len(typs), "units": len(units),
 	}
+	vunits, vinfo := c04ValueUnits(quick)
+	units = append(units, vunits...)
+	for k, v := range vinfo {
+		info[k] = v
+	}
 	return units, info
 }
 
@@ -1046,6 +1142,9 @@ func c04Size(cs *c04Case) int {
 		if b {
 			n += 10
 		}
+	}
+	if c04IsDerivedAud(cs.Tok.Aud) && !strings.HasSuffix(cs.Tok.Aud, "|str") {
+		n += 2
 	}
 	switch cs.Path {
 	case "callback":
@@ -1097,23 +1196,39 @@ func c04Run(c *Ctx) {
 		// is meant to contain must be present on every path
 		census := map[string]int{}
 		for _, u := range units {
-			for _, aud := range c04UnitAuds(u) {
-				for _, exp := range exps {
-					for _, ev := range c04EVsOf(evs, u, exp) {
-						v := c04Ref(u.Cfg, u.Path, u.Form, c04Tok{Signer: u.Signer, Iss: u.Iss, Aud: aud, Exp: exp, EV: ev, Typ: u.Typ})
-						census[u.Path+":cases"]++
-						switch {
-						case v.Must == c04MustAccept:
-							census[u.Path+":must-accept"]++
-						case v.Must == c04Either:
-							census[u.Path+":either"]++
-						case v.Fails == 1:
-							census[u.Path+":fails-only-"+v.Clause]++
-						default:
-							census[u.Path+":fails-several"]++
-						}
-					}
+			pre := u.Path
+			if u.Part != "" {
+				pre = u.Part + ":" + u.Path
+			}
+			for _, t := range c04UnitToks(u, exps, evs) {
+				v := c04Ref(u.Cfg, u.Path, u.Form, t)
+				census[pre+":cases"]++
+				switch {
+				case v.Must == c04MustAccept:
+					census[pre+":must-accept"]++
+				case v.Must == c04Either:
+					census[pre+":either"]++
+				case v.Fails == 1:
+					census[pre+":fails-only-"+v.Clause]++
+				default:
+					census[pre+":fails-several"]++
 				}
+			}
+		}
+		for _, p := range []string{"callback", "refresh", "bearer", "bearer-extra"} {
+			// value part: look-alike audiences fail the audience clause and nothing else, the audience itself
+			// passes; claim values that are strings must be adopted, the others may be
+			need := []string{"audience-values:" + p + ":must-accept", "audience-values:" + p + ":fails-only-audience"}
+			if p != "bearer-extra" || !c.Quick() {
+				need = append(need, "claim-values:"+p+":must-accept", "claim-values:"+p+":either")
+			}
+			for _, n := range need {
+				if census[n] == 0 {
+					c.Error("vacuous: the enumeration contains no case of class %q", n)
+				}
+			}
+			if n := census["audience-values:"+p+":fails-several"] + census["claim-values:"+p+":fails-several"] + census["claim-values:"+p+":fails-only-audience"]; n > 0 {
+				c.Error("value part: %d cases on path %s fail a clause they are not about", n, p)
 			}
 		}
 		c.Info["reference_census"] = census
@@ -1149,90 +1264,96 @@ func c04Run(c *Ctx) {
 			}
 			baseID = &base.id
 		}
-		for _, aud := range c04UnitAuds(u) {
-			for _, exp := range exps {
-				for _, ev := range c04EVsOf(evs, u, exp) {
-					cs := &c04Case{Cfg: u.Cfg, Path: u.Path, Form: u.Form, Tok: c04Tok{Signer: u.Signer, Iss: u.Iss, Aud: aud, Exp: exp, EV: ev, Typ: u.Typ}}
-					v := c04Ref(cs.Cfg, cs.Path, cs.Form, cs.Tok)
-					cs.Expected = v.String()
-					o, err := e.runCase(cs, base)
-					if err != nil {
-						c.Error("fixture failed for %s: %v", cs.key(), err)
-						continue
-					}
-					c.Inc("evaluations")
-					if c04AmbiguousExtraIssuerNames > 0 {
-						c.Add("ambiguous_extra_issuer_claim_names", int64(c04AmbiguousExtraIssuerNames))
-						c04AmbiguousExtraIssuerNames = 0
-					}
-					c.Inc("path_" + cs.Path)
-					switch v.Must {
-					case c04MustAccept:
-						c.Inc("expect_accept")
-						seen[cs.Path+":expect-accept"]++
-					case c04MustReject:
-						c.Inc("expect_reject")
-						c.Inc("expect_reject_first_clause_" + v.Clause)
-						seen[cs.Path+":expect-reject"]++
-					default:
-						c.Inc("ambiguous")
-					}
-					if v.Fails <= 1 {
-						// accepted tokens and tokens one clause away from acceptance: one missing check flips them
-						c.Distinct("distinct_nontrivial", cs.key())
-					}
-					key, msg, class := c04Judge(cs, v, o, baseID)
-					c.Inc("observed_" + class)
-					c.Inc("observed_" + class + "_" + cs.Path)
-					if v.Must == c04Either {
-						c.Inc("ambiguous_observed_" + class)
-					}
-					seen[cs.Path+":"+class]++
-					if class == "accepted" && o.ProfileCalls > 0 {
-						c.Inc("accepted_with_profile_fallback")
-					}
-					if class == "accepted" && (cs.Tok.Typ == "email-absent" || cs.Tok.Typ == "groups-absent") && !strings.HasPrefix(cs.Path, "bearer") {
-						seen["needs-profile"]++
-						if o.ProfileCalls > 0 {
-							seen["used-profile"]++
-						}
-					}
-					if cs.Path == "refresh" {
-						if o.Grants > 0 {
-							c.Inc("refresh_grants_observed")
-						} else if o.Panic == "" {
-							c.Error("refresh path did not reach the provider's token endpoint: %s", cs.key())
-						}
-					}
-					if v.Must == c04MustAccept || (v.Must == c04MustReject && v.Fails == 1 && class != "panic") {
-						cp := *cs
-						cp.Observed = o
-						c.Sample(4, cp)
-					}
-					if key == "" {
-						continue
-					}
-					cp := *cs
-					cp.Observed = o
-					again := func() (string, bool) {
-						o2, err := e.runCase(cs, base)
-						if err != nil {
-							return "fixture:" + err.Error(), false
-						}
-						k2, _, _ := c04Judge(cs, v, o2, baseID)
-						return k2, k2 != ""
-					}
-					size := c04Size(cs)
-					// every case is counted; the re-execution (5x) is spent on the first cases of a key and
-					// on every case that would become the reported (smallest) counterexample
-					if old := c.Violations[key]; old != nil && confirmed[key] >= 3 && size >= old.Size {
-						c.Violate(key, msg, size, cp)
-						continue
-					}
-					confirmed[key]++
-					c.confirm(key, msg, size, cp, again)
+		var coll c04Collisions
+		for _, tok := range c04UnitToks(u, exps, evs) {
+			cs := &c04Case{Cfg: u.Cfg, Path: u.Path, Form: u.Form, Tok: tok}
+			v := c04Ref(cs.Cfg, cs.Path, cs.Form, cs.Tok)
+			cs.Expected = v.String()
+			o, err := e.runCase(cs, base)
+			if err != nil {
+				c.Error("fixture failed for %s: %v", cs.key(), err)
+				continue
+			}
+			c.Inc("evaluations")
+			if c04AmbiguousExtraIssuerNames > 0 {
+				c.Add("ambiguous_extra_issuer_claim_names", int64(c04AmbiguousExtraIssuerNames))
+				c04AmbiguousExtraIssuerNames = 0
+			}
+			c.Inc("path_" + cs.Path)
+			switch v.Must {
+			case c04MustAccept:
+				c.Inc("expect_accept")
+				seen[cs.Path+":expect-accept"]++
+			case c04MustReject:
+				c.Inc("expect_reject")
+				c.Inc("expect_reject_first_clause_" + v.Clause)
+				seen[cs.Path+":expect-reject"]++
+			default:
+				c.Inc("ambiguous")
+			}
+			if v.Fails <= 1 {
+				// accepted tokens and tokens one clause away from acceptance: one missing check flips them
+				c.Distinct("distinct_nontrivial", cs.key())
+			}
+			key, msg, class := c04Judge(cs, v, o, baseID)
+			c04ValueCount(c, cs, v, o, class)
+			if other := coll.check(c, cs, o, class); other != nil && key == "" {
+				pos, _ := c04ValueOf(cs.Tok.Typ)
+				sv, _ := c04SessionValue(pos, o)
+				cp := *cs
+				cp.Observed, cp.Other = o, other
+				c.Violate(fmt.Sprintf("C04/different-claim-values-same-session-value:%s:%s", cs.Path, pos),
+					fmt.Sprintf("%s: cfg %+v: the tokens %+v and %+v carry different %s claim values, both are accepted and both sessions say %q", cs.Path, cs.Cfg, *other, cs.Tok, pos, sv), c04Size(cs)+5, cp)
+			}
+			c.Inc("observed_" + class)
+			c.Inc("observed_" + class + "_" + cs.Path)
+			if v.Must == c04Either {
+				c.Inc("ambiguous_observed_" + class)
+			}
+			seen[cs.Path+":"+class]++
+			if class == "accepted" && o.ProfileCalls > 0 {
+				c.Inc("accepted_with_profile_fallback")
+			}
+			if class == "accepted" && (cs.Tok.Typ == "email-absent" || cs.Tok.Typ == "groups-absent") && !strings.HasPrefix(cs.Path, "bearer") {
+				seen["needs-profile"]++
+				if o.ProfileCalls > 0 {
+					seen["used-profile"]++
 				}
 			}
+			if cs.Path == "refresh" {
+				if o.Grants > 0 {
+					c.Inc("refresh_grants_observed")
+				} else if o.Panic == "" {
+					c.Error("refresh path did not reach the provider's token endpoint: %s", cs.key())
+				}
+			}
+			if v.Must == c04MustAccept || (v.Must == c04MustReject && v.Fails == 1 && class != "panic") {
+				cp := *cs
+				cp.Observed = o
+				c.Sample(4, cp)
+			}
+			if key == "" {
+				continue
+			}
+			cp := *cs
+			cp.Observed = o
+			again := func() (string, bool) {
+				o2, err := e.runCase(cs, base)
+				if err != nil {
+					return "fixture:" + err.Error(), false
+				}
+				k2, _, _ := c04Judge(cs, v, o2, baseID)
+				return k2, k2 != ""
+			}
+			size := c04Size(cs)
+			// every case is counted; the re-execution (5x) is spent on the first cases of a key and
+			// on every case that would become the reported (smallest) counterexample
+			if old := c.Violations[key]; old != nil && confirmed[key] >= 3 && size >= old.Size {
+				c.Violate(key, msg, size, cp)
+				continue
+			}
+			confirmed[key]++
+			c.confirm(key, msg, size, cp, again)
 		}
 	}
 	// non-vacuity of the observations of this shard, relative to what its cases were expected to show
@@ -1248,6 +1369,7 @@ func c04Run(c *Ctx) {
 	if seen["refresh:expect-reject"] > 0 && seen["refresh:kept-old-session"] == 0 && len(c.Violations) == 0 {
 		c.Error("vacuous: shard %d/%d never saw a refresh keep the old session", c.Shard, c.Shards)
 	}
+	c04ValueShardGuard(c)
 	if seen["needs-profile"] > 0 && seen["used-profile"] == 0 {
 		c.Error("vacuous: shard %d/%d accepted tokens lacking a claim but the profile endpoint was never consulted", c.Shard, c.Shards)
 	}
@@ -1279,6 +1401,22 @@ func c04Replay(c *Ctx, raw json.RawMessage) string {
 	if key != "" {
 		c.Violate(key, msg, 1, cs)
 	}
+	if cs.Other != nil && c04IsValueTyping(cs.Tok.Typ) && c04IsValueTyping(cs.Other.Typ) {
+		// relational clause: run the other token too and compare what the two sessions say
+		cs2 := cs
+		cs2.Tok, cs2.Other = *cs.Other, nil
+		o2, err := e.runCase(&cs2, base)
+		if err != nil {
+			return "fixture: " + err.Error()
+		}
+		pos, _ := c04ValueOf(cs.Tok.Typ)
+		a, okA := c04SessionValue(pos, o)
+		b, okB := c04SessionValue(pos, o2)
+		if okA && okB && a == b {
+			c.Violate(fmt.Sprintf("C04/different-claim-values-same-session-value:%s:%s", cs.Path, pos),
+				fmt.Sprintf("tokens %+v and %+v both lead to the session value %q", cs.Tok, *cs.Other, a), 1, cs)
+		}
+	}
 	b, _ := json.Marshal(o)
 	return fmt.Sprintf("expected %s, observed %s: %s", v.String(), class, b)
 }
@@ -1287,16 +1425,18 @@ func init() {
 	register(&checkDef{
 		id:    "C04",
 		level: "exploration",
-		rule:  "full product token{signer x issuer x audience shape x expiry x email_verified x claim typing} x configuration{key source x allow-unverified-email x skip-issuer-verification x audience configuration x claim names} x entry path{login callback, token refresh, bearer header via provider loader (3 header forms), bearer header with an extra issuer} through the real proxy and the fake identity provider; each flow is compared clause by clause with a reference model of the statement: accepted only if every clause holds, identity at the upstream and in /oauth2/userinfo equal to the token's configured claims, profile endpoint only for claims the token lacks; non-trivial = token that satisfies every clause or fails exactly one",
+		rule:  "full product token{signer x issuer x audience shape x expiry x email_verified x claim typing} x configuration{key source x allow-unverified-email x skip-issuer-verification x audience configuration x claim names} x entry path{login callback, token refresh, bearer header via provider loader (3 header forms), bearer header with an extra issuer} through the real proxy and the fake identity provider; each flow is compared clause by clause with a reference model of the statement: accepted only if every clause holds, identity at the upstream and in /oauth2/userinfo equal to the token's configured claims, profile endpoint only for claims the token lacks; non-trivial = token that satisfies every clause or fails exactly one. Value part on otherwise flawless tokens: (A) every allowed audience x 26 look-alike derivations (word of a blank/tab/newline/comma/semicolon separated string, prefix, suffix, substring, truncated, other case, surrounding blanks, NUL, JSON list text, quoted, twice, URL, empty) x presentation (string, one-element list, second / first of a list, list inside a list) x audience claim (aud, custom) x entry path, reference = byte equality of one whole audience value; (B) claim values (JSON numbers up to 2^64+1, decimals, exponent forms, booleans, numeric strings, lists of them) x position (user, e-mail, groups, preferred_username; standard and custom claim names) x entry path, reference = the session field denotes exactly the claim's value, and different claim values of one JSON type never give the same session value",
 		assumptions: []string{
 			"open details are counted as ambiguous and cannot fail: token without exp; kid that names no published key; email_verified=false with a non-standard e-mail claim or on an extra issuer with allow-unverified-email; issuer absent while issuer verification is skipped; groups claim that is not a list of strings; bearer token without e-mail claim; token carried in a Basic header; with an extra issuer configured, a token whose audience is the other issuer's audience",
 			"the claim that is not the configured audience claim always carries the opposite verdict (decoy)",
 			"refresh path: the provider does not rotate refresh tokens so that one saved post-login browser state can be refreshed with every token of the alphabet; 'accepted' there means the served identity changed away from the pre-refresh one",
 			"ID-token expiry is decided inside go-oidc on the real clock: probed with margins of hours (valid = +1000 h, expired = -2 h), not at the boundary",
 			"nested claim path (realm.roles): both the path reading and the literal-name reading are admissible",
+			"claim values that are not strings (groups: not lists of strings): the token may be refused; if it is adopted, a number may appear in any notation denoting exactly the same number (counted as ambiguous), a boolean as its JSON text, a string byte for byte; a value that is no list in the groups claim may give one group or none; equal session values for claim values of different JSON type (7 and \"7\") are counted as ambiguous",
 		},
 		shards: func(tier string) int { return 16 },
 		run:    func(c *Ctx) { concRunFor(c, "C04"); c04Run(c) },
+		post:   c04ValuePost,
 		replay: func(c *Ctx, raw json.RawMessage) string {
 			if out, ok := concReplayFor(c, "C04", raw); ok {
 				return out
